@@ -71,14 +71,35 @@ def has_quantifier(t) -> bool:
     key = t.get_id()
     r = _QCACHE.get(key)
     if r is not None:
-        return r
+        return r[1]
     if z3.is_quantifier(t):
         r = True
     elif z3.is_app(t):
         r = any(has_quantifier(c) for c in t.children())
     else:
         r = False
-    _QCACHE[key] = r
+    _QCACHE[key] = (t, r)  # keep the term alive: z3 reuses ids of freed terms
+    return r
+
+
+_VCACHE: dict = {}
+
+
+def _has_var(t, depth=0) -> bool:
+    """Does the term contain a *free* de-Bruijn variable (index >= number of enclosing binders inside t)?"""
+    key = (t.get_id(), depth)
+    r = _VCACHE.get(key)
+    if r is not None:
+        return r[1]
+    if z3.is_var(t):
+        r = z3.get_var_index(t) >= depth
+    elif z3.is_app(t):
+        r = any(_has_var(c, depth) for c in t.children())
+    elif z3.is_quantifier(t):
+        r = _has_var(t.body(), depth + t.num_vars())
+    else:
+        r = False
+    _VCACHE[key] = (t, r)
     return r
 
 
@@ -98,6 +119,11 @@ class Path:
         self.axiom_keys = set()
         self.quantified = False
         self.notes = []
+        self.spec_defs = {}    # z3 decl name -> (decl, bound consts, body term): definitions instantiated on demand
+        self.inst_done = set()  # ids of application terms already instantiated
+        self.visited = set()
+        self._keep = []
+        self.fuel = int(os.environ.get("PYVC_FUEL", "2"))
         self.pure = 0          # >0 while a contract expression is evaluated (no forking allowed)
         self.scope_depth = 0   # >0 inside a quantified / guarded sub-scope (no forking allowed)
 
@@ -109,10 +135,67 @@ class Path:
             return
         if z3.is_true(f):
             return
+        self._add(f)
+        self.instantiate_defs(f)
+
+    def _add(self, f):
         self.pc.append(f)
         self.solver.add(f)
         if not has_quantifier(f):
             self.qf.add(f)
+
+    # -- spec-function definitions: quantifier-free instantiation with bounded fuel -----------------------
+    def register_spec(self, decl, bound, body):
+        self.spec_defs[decl.name()] = (decl, bound, body)
+
+    def _collect_apps(self, t, out, bound_depth=0):
+        tid = t.get_id()
+        if tid in self.visited:
+            return
+        self.visited.add(tid)
+        self._keep.append(t)
+        if z3.is_quantifier(t):
+            self._collect_apps(t.body(), out, bound_depth + 1)
+            return
+        if not z3.is_app(t):
+            return
+        for c in t.children():
+            self._collect_apps(c, out, bound_depth)
+        d = t.decl()
+        if d.kind() == z3.Z3_OP_UNINTERPRETED and d.name() in self.spec_defs and t.num_args() > 0:
+            if not _has_var(t):
+                out.append(t)
+
+    def instantiate_defs(self, f):
+        if not self.spec_defs or isinstance(f, bool):
+            return
+        if self.scope_depth:
+            # instances added inside a scope are popped with it: do not remember them
+            saved = (set(self.inst_done), set(self.visited))
+            try:
+                self._instantiate(f)
+            finally:
+                self.inst_done, self.visited = saved
+            return
+        self._instantiate(f)
+
+    def _instantiate(self, f):
+        work = []
+        self._collect_apps(f, work)
+        gen = 0
+        while work and gen <= self.fuel:
+            nxt = []
+            for app in work:
+                if app.get_id() in self.inst_done:
+                    continue
+                self.inst_done.add(app.get_id())
+                decl, bound, body = self.spec_defs[app.decl().name()]
+                inst = z3.substitute(body, *[(b, app.arg(i)) for i, b in enumerate(bound)])
+                eq = app == inst
+                self._add(eq)
+                self._collect_apps(inst, nxt)
+            work = nxt
+            gen += 1
 
     def use_axioms(self, key, axioms):
         if key in self.axiom_keys:
@@ -217,9 +300,8 @@ class Path:
                     ob = Obligation(name, kind, "failed" if r == z3.sat else "unknown", (time.time() - t0) * 1e3, "z3",
                                     model=self.solver.model() if r == z3.sat else None, detail="goal is False", pathid=pathid)
             self.explorer.obligations.append(ob)
-            if not val:
-                raise PathEnd()
             return ob
+        self.instantiate_defs(f)
         s = self.solver
         s.push()
         s.set("timeout", PROVE_TIMEOUT_MS)
